@@ -1,6 +1,7 @@
 import Uhppote.Driver.OpWire
 import Uhppote.Driver.ModelCodec
 import Uhppote.Gen.Routing
+import Uhppote.Gen.Ops
 namespace Uhppote.Driver.ModelOps
 open Uhppote Uhppote.Model Uhppote.Model.Api Uhppote.Driver.OpWire
 
@@ -11,10 +12,11 @@ def layouts (n : String) : Option Layout := Gen.Messages.all.lookup n
 def handle : List String → Option String
   | "op" :: r => do
     let l ← parseOpLine defaultBc r
-    let op ← findOp l.name
+    let op ← Gen.Ops.findOp l.name
     let (o, extras) := call Gen.codecFacts Driver.ModelCodec.T Driver.ModelCodec.wireBounds layouts 0x96 l.cfg op l.args l.arrivals
     some (showOutcome o.calls o.res extras)
-  | ["w26", n] => n.toNat?.map fun n => if isWiegand26 n then "1" else "0"
+  | ["op-shared", _, calls] => some s!"returned={((calls.splitOn "=").getD 1 "")}"
+  | ["w26", n] => n.toNat?.map fun n => if Gen.Ops.isWiegand26 n then "1" else "0"
   | _ => none
 
 end Uhppote.Driver.ModelOps
